@@ -60,6 +60,10 @@ pub trait CaseEngine: Sync {
         let outer = frames.iter().rev().find(|f| f.contains("agdb::"))?;
         Some(format!("operation_does_not_return:{outer}"))
     }
+    /// after this many stuck cases the run gives up (engines whose open known findings include hangs raise it)
+    fn max_stuck_cases(&self) -> u64 {
+        12
+    }
     /// CPU seconds (not wall-clock: load independent) a case may burn without emitting a progress line before it
     /// is killed as spinning; engines emit a progress line per operation, and an operation takes milliseconds
     fn hang_cpu_seconds(&self) -> f64 {
@@ -296,7 +300,7 @@ pub fn parent_main(engine: &dyn CaseEngine, args: &Args) -> Report {
     let timeout = Duration::from_secs(engine.case_timeout_s(args));
     let mut live = workers;
     let mut watchdog_kills = 0u64;
-    let max_watchdog_kills = args.u64("max-stuck", 12);
+    let max_watchdog_kills = args.u64("max-stuck", engine.max_stuck_cases());
     let mut deaths = 0u64;
     let max_deaths = args.u64("max-deaths", 96);
     let mut last_check = Instant::now();
